@@ -199,6 +199,9 @@ def run_full(unit):
             getattr(getattr(m, comp), attr).value = val
         wb.impedancemodelused.value = (mode == 'impedance')
         wb.productionwellpumping.value = flags['pumping']
+        if flags.get('plant'):     # which pumps are modelled is decided by the pumping flag, whatever the plant type (flash plants in bottoming / parallel cogeneration keep their production pumps)
+            from geophires_x.OptionList import PlantType
+            m.surfaceplant.plant_type.value = {'double-flash': PlantType.DOUBLE_FLASH, 'single-flash': PlantType.SINGLE_FLASH, 'orc': PlantType.SUB_CRITICAL_ORC}[flags['plant']]
         wb.usebuiltinppwellheadcorrelation = flags['builtin_wellhead']
         wb.overpressure_percentage.Provided = True
         wb.injection_reservoir_inflation_rate.Provided = True   # (without it the pinned Calculate raises UnboundLocalError: robustness, not C15)
@@ -249,6 +252,13 @@ def run_full(unit):
             m = drive(v, flags, True)
             return obligations(m, flags)
         zv = {n: z3.Real(n) for n in names}
+
+        def probe():
+            import random
+            rnd = random.Random(15)
+            yield {n: (ranges[n][0] + ranges[n][1]) / 2 for n in names}
+            for _ in range(6):
+                yield {n: ranges[n][0] + (ranges[n][1] - ranges[n][0]) * rnd.random() for n in names}
         k = 0
         for pr in core.explore(fn, max_paths=60000):
             log.path(pr)
@@ -261,7 +271,7 @@ def run_full(unit):
                 harness.reachable(log, pr.ctx, 1000)
             for name, cond in pr.value:
                 harness.discharge(log, pr.ctx, name + f' [{"pumped" if flags["pumping"] else "self-flowing"}]', cond, zv,
-                                  lambda inp, name=name: concrete(inp, name), timeout_ms=20000, sample=(k == 1))
+                                  lambda inp, name=name: concrete(inp, name), timeout_ms=20000, sample=(k == 1), probe=probe)
     yield log.result()
 
 
@@ -324,6 +334,11 @@ def units(tier, seed):
         us.append({'harness': 'full', 'L': L, 'T': T, 'mode': 'impedance', 'flags': {'pumping': True, 'builtin_wellhead': True}})
         for fl in ({'pumping': True, 'builtin_wellhead': True}, {'pumping': True, 'builtin_wellhead': False}, {'pumping': False, 'builtin_wellhead': True}):
             us.append({'harness': 'full', 'L': L, 'T': T, 'mode': 'indexes', 'flags': fl})
+    L0, T0 = NFULL[tier][0]
+    us.append({'harness': 'full', 'L': L0, 'T': T0, 'mode': 'indexes', 'flags': {'pumping': True, 'builtin_wellhead': True, 'plant': 'double-flash'}})
+    if tier == 'thorough':
+        us.append({'harness': 'full', 'L': L0, 'T': T0, 'mode': 'indexes', 'flags': {'pumping': True, 'builtin_wellhead': False, 'plant': 'single-flash'}})
+        us.append({'harness': 'full', 'L': L0, 'T': T0, 'mode': 'indexes', 'flags': {'pumping': False, 'builtin_wellhead': True, 'plant': 'orc'}})
     us.append({'harness': 'friction'})
     return us
 
